@@ -227,6 +227,13 @@ func exec(c Case) (res evid.Result) {
 		got = tr.Scope()
 		tr.Close()
 	}
+	if ip.IsUnspecified() {
+		// 0.0.0.0 / :: is no host's address: the kernel connects such a socket to this host
+		// itself, so a transport that looks at the connected peer truthfully finds loopback
+		// (legitimate variation C09-r2-4), one that looks at the URI finds "not loopback"
+		res.Classes = append(res.Classes, c.Proto, "peer-address-unspecified-not-judged")
+		return res
+	}
 	if want == defn.NonLocal && c.Proto != "tcp-accept-ns" {
 		for _, own := range ownAddrs() {
 			if net.ParseIP(own).Equal(ip) {
